@@ -22,7 +22,8 @@ class Story:
         self.sim.merkle_headers = True
         self.fs = fullsim.FullSim(self.sim, deviations=shape.get('deviations', 0),
                                   max_steps=shape.get('max_steps', 900), with_sessions=shape.get('sessions', True),
-                                  split_jobs=shape.get('split_jobs', False), real_odb=shape.get('real_odb', False))
+                                  split_jobs=shape.get('split_jobs', False), real_odb=shape.get('real_odb', False),
+                                  chunk_size=shape.get('chunk_size'))
         if shape.get('real_odb', False):
             self.sim.real_txids = True
         self.fs.sched.window = shape.get('window')
